@@ -81,10 +81,12 @@ def history(I, kind="complex", length=3, twin=False):
         A = _mk(kind, custom=True, seed=1)
         files = [os.path.join(d, "f0.pt"), os.path.join(d, "f1.pt")]
         stored = {}
-        meta = {"note": "x", "nested": {"a": [1, 2]}, "t": torch.tensor([1.5, -2.0])}
+        # (keys that merely CONTAIN a reserved name are ordinary metadata)
+        meta = {"note": "x", "nested": {"a": [1, 2]}, "t": torch.tensor([1.5, -2.0]), "rbm_am_lr": 0.25, "unitary_dict_source": "lab"}
 
         def meta_ok():
-            return sorted(meta) == ["nested", "note", "t"] and meta["note"] == "x" and meta["nested"] == {"a": [1, 2]} and torch.equal(meta["t"], torch.tensor([1.5, -2.0]))
+            return (sorted(meta) == ["nested", "note", "rbm_am_lr", "t", "unitary_dict_source"] and meta["note"] == "x" and meta["nested"] == {"a": [1, 2]}
+                    and torch.equal(meta["t"], torch.tensor([1.5, -2.0])) and meta["rbm_am_lr"] == 0.25 and meta["unitary_dict_source"] == "lab")
 
         expected_A = _snap(A)
         for step in range(length):
@@ -108,7 +110,8 @@ def history(I, kind="complex", length=3, twin=False):
                 if not meta_ok():
                     return False, "%s: save modified the caller's metadata: keys %s" % (tag, sorted(meta))
                 blob = torch.load(path)
-                if blob.get("note") != "x" or blob.get("nested") != {"a": [1, 2]} or not torch.equal(blob.get("t"), torch.tensor([1.5, -2.0])):
+                if blob.get("note") != "x" or blob.get("nested") != {"a": [1, 2]} or not torch.equal(blob.get("t"), torch.tensor([1.5, -2.0])) \
+                        or blob.get("rbm_am_lr") != 0.25 or blob.get("unitary_dict_source") != "lab":
                     return False, "%s: stored metadata wrong" % tag
                 # the file written by THIS save holds the parameters the model has NOW (whatever happened since an earlier save)
                 for net in A.networks:
@@ -119,6 +122,23 @@ def history(I, kind="complex", length=3, twin=False):
                     for k_, v_ in cur.items():
                         if got[k_].shape != v_.shape or not torch.equal(got[k_], v_):
                             return False, "%s: file holds other values of %s.%s than the model has at the time of saving" % (tag, net, k_)
+            elif op == 8:
+                # train on, overwrite the SAME path, read it back at once (whatever was read from that path before)
+                for net in A.networks:
+                    for p in getattr(A, net).parameters():
+                        p.data.mul_(-0.5).add_(0.125)
+                expected_A = _snap(A)
+                A.save(path, meta)
+                stored[f] = _snap(A)
+                Bm = _mk(kind, custom=True, seed=11)
+                Bm.load(path)
+                err = _same(Bm, stored[f])
+                if err:
+                    return False, "%s: a file rewritten after an earlier load reads back stale: %s" % (tag, err)
+                Cm = type(A).autoload(path)
+                err = _same(Cm, stored[f])
+                if err:
+                    return False, "%s: autoload of a rewritten file: %s" % (tag, err)
             elif op in (4, 5, 6, 7):
                 if f not in stored:
                     continue
@@ -178,7 +198,7 @@ def specs(tier):
     for kind in ("positive", "complex", "mixed", "mixed-module"):
         inputs = {}
         for i in range(L):
-            inputs["op%d" % i] = ("int", 0, 7)
+            inputs["op%d" % i] = ("int", 0, 8)
             inputs["f%d" % i] = ("int", 0, 1)
         pre = ["op0 >= 1", "op0 <= 3", "f0 == 0"] if tier == "quick" else ["op0 <= 3"]
         S.append(dict(name="history-%s" % kind, module="checks.c11", function="history", kwargs=dict(kind=kind, length=L), inputs=inputs, pre=pre,
